@@ -43,6 +43,8 @@ def case_stream(rng, tier, small_len=None, gen_n=None, full_len=2, with_layout=T
         yield "structure", seq, G.render(seq)
     for seq in G.repeat_cases():
         yield "repeat", seq, G.render(seq)
+    for i, seq in enumerate(G.value_shape_cases()):
+        yield "shape", seq, (G.render(seq) if i % 3 else G.render(seq, "\n"))
     n = small_len or (4 if tier == "quick" else 5)
     keep = 0.12 if tier == "quick" else 0.35
     for seq in G.sequences(G.SMALL_VOCAB, n):
@@ -110,6 +112,9 @@ def attribute(v, toks, judge_impl=None):
     ntoks, found = neutralize(toks)
     if not found:
         return None
+    if found == {KF_KEEPFLAGS} and judge_impl is not None and not (v.valid and judge_impl == "reject"):
+        # the finding is "a valid keep with arguments is REJECTED"; an invalid one that is accepted is something else
+        return None
     nv = S.judge(ntoks)
     impl, _, _ = I.run_parser(G.render(ntoks))
     if nv.unclaimed and nv.valid:
@@ -155,7 +160,7 @@ def check_C01(report, tier, seed, replay=None):
             continue
         want = "accept" if v.valid else "reject"
         if vi != want:
-            kf = attribute(v, toks)
+            kf = attribute(v, toks, vi)
             if kf and vi in ("accept", "reject"):
                 report.known_hit(kf)
                 continue
@@ -557,6 +562,22 @@ def check_C07(report, tier, seed, replay=None):
                 report.violation("removing %r from require: expected rejection with %r, got %s %r"
                                  % (e, want, verdict_of(impl), getattr(p, "error", None) if impl.startswith("reject") else ""),
                                  {"property": "C07", "script": hx(text), "text": text.decode("utf-8", "replace"), "removed": e})
+            # the same on a Parser object that has just parsed the complete script (and, every other time, a
+            # script rejected after its require completed): what an earlier script required is not loaded now
+            if i % 2 == 0:
+                from sievelib.parser import Parser
+                reused = Parser()
+                full = G.render(G.require_tokens(rng, needs) + body)
+                first = I.run_parser(full, "sorted", parser=reused)[0]
+                if i % 4 == 0:
+                    I.run_parser(G.render(G.require_tokens(rng, needs)) + b" if {", "sorted", parser=reused)
+                impl2, p2, _ = I.run_parser(text, "sorted", parser=reused)
+                report.case((text, e, "reused"), True)
+                report.count("kind:removal-reused-parser")
+                if first.startswith("accept") and (not impl2.startswith("reject") or not p2.error.endswith(want)):
+                    report.violation("a Parser that has parsed %r accepts / misreports the same script with %r removed from require: got %s %r"
+                                     % (full, e, verdict_of(impl2), getattr(p2, "error", None) if impl2.startswith("reject") else ""),
+                                     {"property": "C07", "history": [hx(full)], "script": hx(text), "text": text.decode("utf-8", "replace"), "removed": e})
     drv.close()
 
 
@@ -647,11 +668,37 @@ def check_C18(report, tier, seed, replay=None):
             if not ok:
                 report.violation("%s: offending token %r starts at line %d column %d (length %d) but error_pos=%r, error line %d in %r"
                                  % (cat, tok, line, col, len(tok), p.error_pos, eline, text), desc)
+    # a '{' that arrives while the test still lacks arguments: the report is at the '{' or later, never earlier
+    for toks, j in G.brace_after_prefix_cases():
+        for sep in (" ", "\n", "\r\n"):
+            text = G.render(toks, sep)
+            off = len(G.render(toks[:j], sep)) + len(sep.encode())
+            impl, mod, p, detail = both(drv, text)
+            report.case((text, "brace"), True)
+            report.count("category:brace-after-prefix")
+            if impl != mod:
+                report.broke("correspondence C18 (brace after an argument prefix)", "script=%r impl=%s model=%s" % (text, impl[:160], mod[:160]),
+                             {"script": hx(text)})
+            if not impl.startswith("reject"):
+                continue
+            f = impl.split(" ")
+            gl, gc = int(f[3]), int(f[4])
+            lines = text.split(b"\n")
+            got_off = sum(len(x) + 1 for x in lines[:gl - 1]) + gc - 1
+            if got_off < off:
+                report.violation("reported position (offset %d, line %d column %d) is before the '{' (offset %d) although everything "
+                                 "before it is a prefix of a valid script: %r" % (got_off, gl, gc, off, text),
+                                 {"property": "C18", "script": hx(text), "text": text.decode("utf-8", "replace")})
     # other rejections: never before the first invalidating token; independent of what follows
     m = 700 if tier == "quick" else 15000
     for i in range(m):
-        toks, needs = G.gen_script(rng, avoid_optpos=True, ncmds=rng.randrange(2, 5))
-        for kind, j, mt in G.mutants(rng, toks, 2):
+        toks, needs = G.gen_script(rng, avoid_optpos=(i % 3 != 0), ncmds=rng.randrange(2, 5))
+        if i % 3 == 0:
+            # setflag/addflag/removeflag/hasflag take part too (their known findings concern the verdict of some
+            # valid scripts): only scripts the parser accepts are mutated
+            if not I.run_parser(G.render(toks), "sorted")[0].startswith("accept"):
+                continue
+        for kind, j, mt in G.mutants(rng, toks, 3 if i % 3 == 0 else 2):
             # byte offset of token j in the rendering with single spaces
             text = G.render(mt)
             offs, o = [], 0
@@ -766,6 +813,7 @@ def check_C13(report, tier, seed, replay=None):
         reused = Parser()
         hist = []
         kept = []          # (parser object, text) of accepted parses by parsers that are not used again
+        live = factory_checks.C13LiveSet() if (factory_jobs is not None and h % 2 == 0) else None
         for k in range(rng.randrange(4, 13)):
             toks, needs = G.gen_script(rng, avoid_optpos=(k % 3 != 0), ncmds=rng.randrange(1, 4))
             r = rng.random()
@@ -826,6 +874,10 @@ def check_C13(report, tier, seed, replay=None):
                     break
             if factory_jobs is not None and rng.random() < 0.4:
                 factory_jobs(report, rng, pristine, hist)
+            if live is not None and rng.random() < 0.5:
+                live.step(rng)
+        if live is not None:
+            live.finish(report, pristine, hist)
     pristine.close()
     drv.close()
 
